@@ -12,12 +12,12 @@ import (
 
 func init() {
 	register(&Property{
-		ID:        "C07",
-		Title:     "Concurrent tunnels are isolated from each other",
-		DesignRef: "DESIGN.md §3 C07",
-		Technique: "ownership analysis: inventory of shared mutable state reachable from request-serving code against a frozen table, SSA value origin of container keys, who-may-construct inventory of Tunnel/Processor, and origin of every Tunnel the security callbacks touch (only the calling context's)",
-		LevelText: "Static: isolation is decided as ownership. (1) The only process-wide mutable state that request-serving code touches is the frozen set {connection registry under its mutex, the legacy-tunnel cache, prometheus gauges, the session store, the OIDC state store, the NTLM context cache}; any other package variable written (or pool/cache/channel used) on a request path, and any package variable or singleton field whose type can hold a Tunnel, Processor, Identity, Transport or connection, is a violation. (2) The legacy cache is read with the request's Rdg-Connection-Id and written under the tunnel's own RDGId, which was initialised from that same header; the registry is keyed by a fresh UUID. (3) Tunnels are constructed only in HandleGatewayProtocol and processors only in NewProcessor. (4) Every tunnel the security callbacks read or write is the one found in the callback's own context, and the context given to the packet loop carries the tunnel the processor was built on. Actual interleavings are not explored; a second client presenting the same connection id is outside the property's quantifier.",
-		LevelNote: "Trusted: go-cache keyed lookups, context.WithValue/Value, uuid.New uniqueness. Noted, outside the quantifier: a websocket request reusing a cached legacy tunnel with the same connection id.",
+		ID:          "C07",
+		Title:       "Concurrent tunnels are isolated from each other",
+		DesignRef:   "DESIGN.md §3 C07",
+		Technique:   "ownership analysis: inventory of shared mutable state reachable from request-serving code against a frozen table, SSA value origin of container keys, who-may-construct inventory of Tunnel/Processor, and origin of every Tunnel the security callbacks touch (only the calling context's)",
+		LevelText:   "Static: isolation is decided as ownership. (1) The only process-wide mutable state that request-serving code touches is the frozen set {connection registry under its mutex, the legacy-tunnel cache, prometheus gauges, the session store, the OIDC state store, the NTLM context cache}; any other package variable written (or pool/cache/channel used) on a request path, and any package variable or singleton field whose type can hold a Tunnel, Processor, Identity, Transport or connection, is a violation. (2) The legacy cache is read with the request's Rdg-Connection-Id and written under the tunnel's own RDGId, which was initialised from that same header; the registry is keyed by a fresh UUID. (3) Tunnels are constructed only in HandleGatewayProtocol and processors only in NewProcessor. (4) Every tunnel the security callbacks read or write is the one found in the callback's own context, and the context given to the packet loop carries the tunnel the processor was built on. Actual interleavings are not explored; a second client presenting the same connection id is outside the property's quantifier.",
+		LevelNote:   "Trusted: go-cache keyed lookups, context.WithValue/Value, uuid.New uniqueness. Noted, outside the quantifier: a websocket request reusing a cached legacy tunnel with the same connection id.",
 		Explanation: "C07/shared-state classifies every first-party package variable used by request-reachable functions (read-only, frozen container, or violation) and scans variable and singleton field types for tunnel carriers. C07/keys follows cache and registry keys. C07/fresh inventories composite literals of Tunnel/Processor. C07/context-only follows every *Tunnel value in package security back to getTunnel(own ctx) and the ctx handed to Process back to WithValue(CtxTunnel, t).",
 		Assumptions: []string{"distinct tunnels carry distinct connection identifiers (the property's quantifier)"},
 		Rules: []RuleDef{
@@ -268,7 +268,7 @@ func c07Keys(c *Ctx) {
 			switch {
 			case strings.HasSuffix(n, cachePkg+".cache).Get") && onC(ci):
 				nGet++
-				c.Check(fn == hg && isConnID(arg(ci, 0)), rule, "c.Get in "+shortFn(fn), ci.Pos(), "looked up by this request's Rdg-Connection-Id header", "the legacy tunnel cache is read with a key other than the request's Rdg-Connection-Id")
+				c.Check(c.onlyCalledFrom(fn, hg, 0) && c.allUp(arg(ci, 0), isConnID), rule, "c.Get in "+shortFn(fn), ci.Pos(), "looked up by this request's Rdg-Connection-Id header", "the legacy tunnel cache is read with a key other than the request's Rdg-Connection-Id")
 			case strings.HasSuffix(n, cachePkg+".cache).Set") && onC(ci):
 				nSet++
 				b, f, ok := fieldLoad(strip(arg(ci, 0)))
@@ -300,7 +300,7 @@ func c07Keys(c *Ctx) {
 			switch f {
 			case rdgF:
 				nInit++
-				c.Check(fn == hg && isConnID(s.Val), rule, "Tunnel.RDGId in "+shortFn(fn), s.Pos(), "initialised from the request's Rdg-Connection-Id", "Tunnel.RDGId is set from something other than the request's connection id header")
+				c.Check(c.onlyCalledFrom(fn, hg, 0) && c.allUp(s.Val, isConnID), rule, "Tunnel.RDGId in "+shortFn(fn), s.Pos(), "initialised from the request's Rdg-Connection-Id", "Tunnel.RDGId is set from something other than the request's connection id header")
 			case idF:
 				good := false
 				if call, ok := strip(s.Val).(*ssa.Call); ok && strings.HasSuffix(calleeName(call), "uuid.UUID).String") {
@@ -336,7 +336,8 @@ func c07Fresh(c *Ctx) {
 			switch {
 			case isNamedStruct(et, protoPkg, "Tunnel"):
 				n++
-				c.Check(sf == "(*cmd/rdpgw/protocol.Gateway).HandleGatewayProtocol" && !inCycle(al.Block()), rule, "Tunnel literal in "+sf, al.Pos(), "one tunnel object per request, when the connection id is not cached", "a Tunnel is constructed outside HandleGatewayProtocol")
+				hg := c.FnOpt("cmd/rdpgw/protocol", "Gateway.HandleGatewayProtocol")
+				c.Check(hg != nil && c.onlyCalledFrom(fn, hg, 0) && !inCycle(al.Block()), rule, "Tunnel literal in "+sf, al.Pos(), "one tunnel object per request, when the connection id is not cached", "a Tunnel is constructed outside HandleGatewayProtocol")
 			case isNamedStruct(et, protoPkg, "Processor"):
 				n++
 				c.Check(sf == "cmd/rdpgw/protocol.NewProcessor", rule, "Processor literal in "+sf, al.Pos(), "constructed by NewProcessor only (C01/state-owner: once per handler invocation)", "a Processor is constructed outside NewProcessor")
@@ -421,24 +422,40 @@ func c07ContextOnly(c *Ctx) {
 		}
 		c.Check(good, rule, "HandleGatewayProtocol context", wv.Pos(), "both handlers receive the context holding the same tunnel they operate on", "a handler receives a context whose tunnel is not the tunnel it operates on")
 	}
-	for _, name := range []string{"Gateway.handleWebsocketProtocol", "Gateway.handleLegacyProtocol"} {
-		fn := c.Fn("cmd/rdpgw/protocol", name)
-		tP := fn.Params[len(fn.Params)-1]
-		for _, ci := range callsTo(fn, protoPkg+".NewProcessor") {
-			c.Check(arg(ci, 1) == ssa.Value(tP), rule, name+" processor-tunnel", ci.Pos(), "the processor is built on the handler's tunnel", "the processor is built on a tunnel other than the handler's")
+	// every processor is built on, and every packet loop runs with the context of, the tunnel that
+	// HandleGatewayProtocol put into that context (followed through helper parameters)
+	if wv != nil {
+		tv := strip(arg(wv, 2))
+		isTunnel := func(v ssa.Value) bool { return strip(v) == tv }
+		isCtx := func(v ssa.Value) bool {
+			v = strip(v)
+			if v == ssa.Value(wv) {
+				return true
+			}
+			if call, ok := v.(*ssa.Call); ok && calleeName(call) == "(*net/http.Request).Context" {
+				return c.allUp(recvOf(call), func(u ssa.Value) bool {
+					rq, ok := strip(u).(*ssa.Call)
+					return ok && calleeName(rq) == "(*net/http.Request).WithContext" && arg(rq, 0) == ssa.Value(wv)
+				})
+			}
+			return false
 		}
-		for _, ci := range callsTo(fn, "(*"+protoPkg+".Processor).Process") {
-			a := arg(ci, 0)
-			good := false
-			if p, ok := a.(*ssa.Parameter); ok && p == fn.Params[1] {
-				good = true // ctx parameter
+		n := 0
+		for _, f := range c.allFirstPartyFuncs() {
+			if !c.Reachable()[f] {
+				continue
 			}
-			if call, ok := a.(*ssa.Call); ok && calleeName(call) == "(*net/http.Request).Context" {
-				if p, ok := recvOf(call).(*ssa.Parameter); ok && p.Parent() == fn {
-					good = true
-				}
+			for _, ci := range callsTo(f, protoPkg+".NewProcessor") {
+				n++
+				c.Check(c.allUp(arg(ci, 1), isTunnel), rule, "processor-tunnel in "+shortFn(f), ci.Pos(), "the processor is built on the tunnel of this request", "the processor is built on a tunnel other than the one placed in the request context")
 			}
-			c.Check(good, rule, name+" loop-context", ci.Pos(), "the packet loop runs with the context it was handed (holding its tunnel)", "the packet loop runs with a context other than the one holding its tunnel")
+			for _, ci := range callsTo(f, "(*"+protoPkg+".Processor).Process") {
+				n++
+				c.Check(c.allUp(arg(ci, 0), isCtx), rule, "loop-context in "+shortFn(f), ci.Pos(), "the packet loop runs with the context holding its tunnel", "the packet loop runs with a context other than the one holding its tunnel")
+			}
+		}
+		if n < 4 {
+			c.Undecided(rule, "processor sites", hg.Pos(), "found %d NewProcessor/Process sites (4 confirmed by hand)", n)
 		}
 	}
 	c.Floor(rule, 8, "security tunnel uses + context wiring")
